@@ -3,6 +3,8 @@ CONSTANTS
   Classes <- Classes4
   Outs <- OutsC16
   Durs = {0}
+  CDurs <- ZeroDur
+  EDurs <- ZeroDur
   Rets <- RetsTwo
   Advs <- AdvsExact
   Decs <- DecsAll
